@@ -512,3 +512,148 @@ var cyclics = []cyclic{
 	{"closure-capturing-its-vector", twice(`(set '$ (let* ((v (vector 1)) (f (lambda () v))) (append! v f) v))`)},
 	{"vector-in-itself-wide", twice(`(set '$ (vector 1)) (append! $ $ $ $ $ $ $ $ $)`)},
 }
+
+// ---------------------------------------------------------------------------
+// Self-containing values x the places the EVALUATOR walks a value on its own.
+// Each value is an expression (so it can be built inside a macro body as well
+// as bound to the global `d`), with self-multiplicity 1, 2 and 3 -- a walk
+// that unrolls a cycle visits multiplicity^depth nodes, so 1 shows nothing --
+// and two-container cycles in which each container holds the other twice.
+
+type walkValue struct{ name, expr string }
+
+var walkValues = []walkValue{
+	// a vector holding itself k times
+	{"vector-x1", `(let ([v (vector 1)]) (append! v v) v)`},
+	{"vector-x2", `(let ([v (vector 1)]) (append! v v) (append! v v) v)`},
+	{"vector-x3", `(let ([v (vector 1)]) (append! v v) (append! v v) (append! v v) v)`},
+	// a vector holding a list that holds the vector k times (the vector is the value)
+	{"list-in-vector-x1", `(let* ([v (vector 1)] [l (list v)]) (append! v l) v)`},
+	{"list-in-vector-x2", `(let* ([v (vector 1)] [l (list v v)]) (append! v l) v)`},
+	{"list-in-vector-x3", `(let* ([v (vector 1)] [l (list v v v)]) (append! v l) v)`},
+	// ... and the LIST as the value
+	{"list-of-vector-x1", `(let* ([v (vector 1)] [l (list v)]) (append! v l) l)`},
+	{"list-of-vector-x2", `(let* ([v (vector 1)] [l (list v v)]) (append! v l) l)`},
+	{"list-of-vector-x3", `(let* ([v (vector 1)] [l (list v v v)]) (append! v l) l)`},
+	// a sorted-map holding itself under k keys
+	{"map-x1", `(let ([m (sorted-map)]) (assoc! m "a" m) m)`},
+	{"map-x2", `(let ([m (sorted-map)]) (assoc! m "a" m) (assoc! m "b" m) m)`},
+	{"map-x3", `(let ([m (sorted-map)]) (assoc! m "a" m) (assoc! m "b" m) (assoc! m "c" m) m)`},
+	// two containers, each holding the other twice
+	{"two-vectors-2x2", `(let* ([a (vector)] [b (vector)]) (append! a b b) (append! b a a) a)`},
+	{"two-maps-2x2", `(let* ([a (sorted-map)] [b (sorted-map)]) (assoc! a "x" b) (assoc! a "y" b) (assoc! b "x" a) (assoc! b "y" a) a)`},
+	{"vector-map-2x2", `(let* ([a (vector)] [b (sorted-map)]) (append! a b b) (assoc! b "x" a) (assoc! b "y" a) a)`},
+	{"two-list-in-vectors-2x2", `(let* ([a (vector)] [b (vector)]) (append! a (list b b)) (append! b (list a a)) a)`},
+	// a vector holding itself inside a tagged value, twice
+	{"tagged-in-vector-x2", `(progn (deftype c03w (v) v) (let ([v (vector 1)]) (append! v (new c03w v)) (append! v (new c03w v)) v))`},
+}
+
+type walkContext struct{ name, tmpl string }
+
+// In a template, $V is the value's expression written out in place, and `d`
+// is the global the prelude binds to the value.
+var walkContexts = []walkContext{
+	// --- macro expansion results (stamped by the evaluator before evaluation)
+	{"defmacro-toplevel", `(defmacro m () $V) (m)`},
+	{"defmacro-toplevel-global", `(defmacro m () d) (m)`},
+	{"defmacro-as-argument", `(defmacro m () $V) (format-string "{}" (m))`},
+	{"defmacro-in-quote", `(defmacro m () (quasiquote (quote (unquote $V)))) (m)`},
+	{"defmacro-in-call", `(defmacro m () (quasiquote (list 1 (unquote $V) 2))) (m)`},
+	{"defmacro-in-nested-lists", `(defmacro m () (quasiquote (list (list (quote ((unquote d))))))) (m)`},
+	{"defmacro-list-built", `(defmacro m () (list 'quote $V)) (m)`},
+	{"defmacro-with-argument", `(defmacro m (x) (quasiquote (list (unquote x) (unquote $V)))) (m 1)`},
+	{"defmacro-spliced", `(defmacro m () (quasiquote (list (unquote-splicing (list $V d))))) (m)`},
+	{"defmacro-twice", `(defmacro m () d) (list (m) (m))`},
+	{"defmacro-expanding-to-macro-call", `(defmacro inner () d) (defmacro outer () '(inner)) (outer)`},
+	{"defmacro-in-function-body", `(defmacro m () d) (defun f () (m)) (f) (f)`},
+	{"defmacro-in-lambda", `(defmacro m () $V) ((lambda () (m)))`},
+	{"defmacro-returning-form-as-argument", `(defmacro m (x) x) (m d)`},
+	{"macrolet-toplevel", `(macrolet ([m () $V]) (m))`},
+	{"macrolet-global", `(macrolet ([m () d]) (m))`},
+	{"macrolet-nested-in-list", `(macrolet ([m () (quasiquote (list (quote (unquote $V))))]) (list (m) (m)))`},
+	{"macrolet-inside-defmacro", `(defmacro outer () '(macrolet ([m () d]) (m))) (outer)`},
+	// --- quasiquote / unquote / unquote-splicing
+	{"quasiquote-unquote", `(quasiquote (a (unquote $V) b))`},
+	{"quasiquote-unquote-only", `(quasiquote (unquote d))`},
+	{"quasiquote-unquote-splicing", `(quasiquote (a (unquote-splicing d)))`},
+	{"quasiquote-unquote-splicing-list", `(quasiquote (a (unquote-splicing (list $V d))))`},
+	{"quasiquote-nested", `(quasiquote (quasiquote (unquote (unquote d))))`},
+	{"quasiquote-in-brackets", `(quasiquote [a (unquote d)])`},
+	{"quasiquote-evaluated", `(eval (quasiquote (list (quote (unquote d)))))`},
+	// --- macroexpand
+	{"macroexpand", `(defmacro m () d) (macroexpand '(m))`},
+	{"macroexpand-1", `(defmacro m () $V) (macroexpand-1 '(m))`},
+	{"macroexpand-quoted-value", `(macroexpand (quasiquote (quote (unquote d))))`},
+	{"macroexpand-value", `(macroexpand d)`},
+	{"macroexpand-1-value", `(macroexpand-1 d)`},
+	{"macroexpand-form-holding-value", `(defmacro m (x) x) (macroexpand (quasiquote (m (unquote d))))`},
+	// --- error data and handler arguments
+	{"error-data", `(error 'boom d)`},
+	{"error-data-many", `(error 'boom "text" d $V)`},
+	{"error-condition", `(error d)`},
+	{"error-ignored", `(ignore-errors (error 'boom d))`},
+	{"assert-message", `(assert false "{}" d)`},
+	{"handler-arguments", `(handler-bind ([condition (lambda (c &rest args) args)]) (error 'boom d))`},
+	{"handler-named-condition", `(handler-bind ([boom (lambda (c &rest args) (car args))]) (error 'boom d d))`},
+	{"handler-rethrow", `(handler-bind ([condition (lambda (c &rest args) (rethrow))]) (error 'boom d))`},
+	{"handler-raises-again", `(handler-bind ([condition (lambda (c &rest args) (error 'again args))]) (error 'boom d))`},
+	{"handler-nested", `(handler-bind ([condition (lambda (c &rest a) a)]) (handler-bind ([other (lambda (c &rest a) 1)]) (error 'boom d)))`},
+	{"handler-returns-value", `(handler-bind ([condition (lambda (c &rest args) d)]) (error 'boom 1))`},
+	// --- sorted-map keys and values
+	{"sorted-map-value", `(sorted-map "k" d)`},
+	{"sorted-map-key", `(sorted-map d 1)`},
+	{"sorted-map-assoc", `(assoc (sorted-map) "k" d)`},
+	{"sorted-map-assoc!", `(assoc! (sorted-map) "k" d)`},
+	{"sorted-map-get", `(get (sorted-map "k" d) "k")`},
+	{"sorted-map-keys", `(keys (sorted-map "k" d))`},
+	{"sorted-map-as-map", `(list (key? d "a") (get d "a") (keys d) (dissoc d "a"))`},
+	{"sorted-map-get-default", `(get-default (sorted-map) "k" d)`},
+	// --- to-string / format-string / printing
+	{"to-string", `(to-string d)`},
+	{"format-string", `(format-string "{}" d)`},
+	{"format-string-twice", `(format-string "{} {}" d $V)`},
+	{"format-string-as-format", `(format-string d)`},
+	{"debug-print", `(debug-print d)`},
+	// --- the evaluator itself: binding, calling, evaluating, defining
+	{"value-alone", `d`},
+	{"built-in-place", `$V`},
+	{"eval", `(eval d)`},
+	{"eval-quoted", `(eval (list 'quote d))`},
+	{"let-binding", `(let ([x d]) x)`},
+	{"let*-binding", `(let* ([x d] [y x]) (list x y))`},
+	{"lambda-argument", `((lambda (x) x) d)`},
+	{"rest-arguments", `(funcall (lambda (&rest xs) xs) d d)`},
+	{"optional-and-key-arguments", `((lambda (&optional x &key y) (list x y)) d :y d)`},
+	{"apply", `(apply list d d (list d))`},
+	{"defun-argument", `(defun f (x) x) (f d)`},
+	{"set-global", `(set 'y d) y`},
+	{"set!-local", `(let ([x 1]) (set! x d) x)`},
+	{"defconst", `(defconst c03-const d) c03-const`},
+	{"if-condition", `(if d d d)`},
+	{"cond-branch", `(cond (d d))`},
+	{"and-or-not", `(list (and d d) (or d d) (not d))`},
+	{"progn", `(progn d d)`},
+	{"thread-first", `(thread-first d (list 1))`},
+	{"thread-last", `(thread-last d (list 1))`},
+	{"trace", `(trace d)`},
+	{"closure-capture", `(let ([x d]) (lambda () x))`},
+	{"labels", `(labels ([f () d]) (f))`},
+	{"flet", `(flet ([f (x) x]) (f d))`},
+	{"dotimes-result", `(dotimes (i 2 d) d)`},
+	{"deftype-new", `(deftype c03t2 (v) v) (user-data (new c03t2 d))`},
+	{"map-over-list", `(map 'list identity (list d d))`},
+	{"foldl", `(foldl (lambda (a x) x) () (list d))`},
+	{"load-string", `(load-string "d")`},
+	{"expr-lambda", `(funcall (expr (list % d)) d)`},
+	{"list-and-vector", `(list d (vector d d))`},
+	{"curry-function", `(funcall (curry-function list d) d)`},
+	{"equal", `(equal? d $V)`},
+	{"json", `(json:dump-string d)`},
+	{"elpspath", `(elpspath:? d 0)`},
+	{"schema-validate", `(s:validate "any" d)`},
+	{"type-and-predicates", `(list (type d) (nil? d) (empty? d) (length d))`},
+	{"sequence-functions", `(list (reverse 'vector d) (concat 'vector d d) (first d) (rest d) (nth d 1))`},
+	{"sort", `(stable-sort (lambda (a b) false) (list d d))`},
+	{"testing-assert", `(testing:assert-equal d d)`},
+	{"help", `(help:help d)`},
+}
